@@ -121,6 +121,16 @@ def run(ctx):
             b = rec.body
             bu = [c.bb for c in nonforeign_calls(rec) if c.fn is rec and c.is_("IndexMut::index_mut") and "'buckets'" in repr(arg_syms(c)[0])]
             bu += [i for i, k, s in b.stmts() if s["k"] == "assign" and s["p"].get("pr") and any(isinstance(e, dict) and "idx" in e for e in s["p"]["pr"]) and s["rv"]["k"] in ("bin", "use")]
+            # `*slot += 1` through a reference obtained from zip(bounds, buckets.iter_mut())
+            if not bu:
+                rsy = Sym(rec)
+                for i, k, s_ in b.stmts():
+                    if s_["k"] == "assign" and s_["p"].get("pr") == ["*"]:
+                        v_ = rsy.rvalue(s_["rv"], 0, frozenset())
+                        plus_one = any(isinstance(x, tuple) and x and x[0] == "bin" and str(x[1]).startswith("Add") and const_int(x[3]) == 1 for x in sym_walk(v_))
+                        src_txt = repr(rsy.local(s_["p"]["l"]))
+                        if plus_one and "iter_mut" in src_txt and "'buckets'" in src_txt and "zip" in src_txt and "'bounds'" in src_txt:
+                            bu.append(i)
             okl = bool(bu) and all(in_cycle(b, i) for i in bu)
             # after the increment control returns to the loop head (no break)
             heads = [c.bb for c in nonforeign_calls(rec) if c.is_("Iterator::next")]
